@@ -239,7 +239,8 @@ def check_request(expect: dict, reqs: list, base_path: str = "/api") -> list[str
     wq = sorted(map(tuple, expect["query"]))
     if gq != wq:
         bad.append(f"query {gq} != {wq}")
-    gh = sorted((k.lower(), v) for k, v in rq["headers"] if k.lower() not in HTTPX_DEFAULT_HEADERS and k.lower() != "cookie")
+    # httpx's own default headers are not the caller's - except `accept`, which a declared header parameter may set (httpx's default is */*)
+    gh = sorted((k.lower(), v) for k, v in rq["headers"] if (k.lower() not in HTTPX_DEFAULT_HEADERS or (k.lower() == "accept" and v != "*/*")) and k.lower() != "cookie")
     wh = sorted((k.lower(), v) for k, v in expect["headers"])
     if gh != wh:
         bad.append(f"headers {gh} != {wh}")
